@@ -197,7 +197,7 @@ func (root *Root) resolveFieldSels(
 	depth int) (result interface{}, ea []error) {
 
 	mr := map[string]interface{}{}
-	ea = root.resolveSels(obj, vars, field.Sels, t, mr, depth)
+	ea = root.resolveSels(obj, vars, field.Sels, t, mr, depth, map[*Fragment]bool{})
 	result = mr
 
 	return
@@ -209,7 +209,8 @@ func (root *Root) resolveSels(
 	sels []Selection,
 	t Type,
 	result map[string]interface{},
-	depth int) (ea []error) {
+	depth int,
+	visited map[*Fragment]bool) (ea []error) {
 
 	if len(sels) == 0 {
 		return []error{resWarnp(nil, "%s is not a valid output leaf type", t.Name())}
@@ -222,9 +223,9 @@ func (root *Root) resolveSels(
 		}
 		switch ts := sel.(type) {
 		case *Inline:
-			ea2 = root.resolveInline(obj, vars, ts, t, result, depth)
+			ea2 = root.resolveInline(obj, vars, ts, t, result, depth, visited)
 		case *FragRef:
-			ea2 = root.resolveFragRef(obj, vars, ts, t, result, depth)
+			ea2 = root.resolveFragRef(obj, vars, ts, t, result, depth, visited)
 		case *Field:
 			ea2 = root.resolveField(obj, vars, ts, t, result, depth)
 		}
@@ -804,10 +805,11 @@ func (root *Root) resolveInline(
 	sel *Inline,
 	t Type,
 	result map[string]interface{},
-	depth int) (ea []error) {
+	depth int,
+	visited map[*Fragment]bool) (ea []error) {
 
 	if sel.Condition == nil || sel.Condition == t {
-		ea = root.resolveSels(obj, vars, sel.Sels, t, result, depth)
+		ea = root.resolveSels(obj, vars, sel.Sels, t, result, depth, visited)
 	}
 	return
 }
@@ -818,13 +820,21 @@ func (root *Root) resolveFragRef(
 	sel *FragRef,
 	t Type,
 	result map[string]interface{},
-	depth int) (ea []error) {
+	depth int,
+	visited map[*Fragment]bool) (ea []error) {
 
 	if depth <= 0 {
 		return []error{resWarn(sel.line, sel.col, "maximum resolve depth reached in fragment %s", sel.Fragment.Name)}
 	}
 	if sel.Fragment.Condition == nil || sel.Fragment.Condition == t {
-		ea = root.resolveSels(obj, vars, sel.Fragment.Sels, t, result, depth-1)
+		// A fragment is applied to an object once, spreading it again adds
+		// nothing. That also keeps fragments that spread each other from
+		// being expanded over and over.
+		if visited[sel.Fragment] {
+			return
+		}
+		visited[sel.Fragment] = true
+		ea = root.resolveSels(obj, vars, sel.Fragment.Sels, t, result, depth-1, visited)
 		if 0 < len(ea) {
 			Errors(ea).in(fmt.Sprintf("fragment at %d:%d", sel.Line(), sel.Column()))
 		}
